@@ -401,11 +401,7 @@ Lemma counts_of ex m : wf_kernel ex m = true ->
   /\ (count_fig FPrivateHugetlb (m_lines m) <= 1)%nat /\ (count_fig FPss (m_lines m) <= 1)%nat
   /\ (count_fig FSwap (m_lines m) <= 1)%nat.
 Proof.
-  intros H. apply wf_kernel_parts in H as (_ & _ & _ & _ & _ & Hc & Hh).
-  rewrite forallb_forall in Hc. apply Nat.leb_le in Hh.
-  assert (G : forall f, In f row_figs -> (count_fig f (m_lines m) <= 1)%nat).
-  { intros f Hf. specialize (Hc f Hf). apply Nat.eqb_eq in Hc. lia. }
-  repeat split; try exact Hh; apply G; cbn; tauto.
+  intros H. repeat split; now apply (count_le1 ex).
 Qed.
 
 (* _parse_smaps on every kernel-formatted listing *)
